@@ -25,7 +25,8 @@ Inductive ppc :=
   | PWbH | PWbT | PWbTry  (* wake_blocked_futures: two loads, try_lock *)
   | PClearPolling         (* PollingState::set_polling(false) *)
   | PLoadCqT2             (* reload CQ tail *)
-  | PStoreHead.           (* store CQ head; the poll returns afterwards *)
+  | PStoreHead            (* store CQ head *)
+  | PEndWbH | PEndWbT | PEndWbTry.  (* wake_blocked_futures at the end of every poll (repair of H15); the poll returns afterwards *)
 
 (** Where a waker is inside [Submissions::wake]. *)
 Inductive wpc :=
@@ -62,9 +63,9 @@ Definition init (m : mode) (npolls : nat) (wcalls : list nat) : st :=
 
 Definition ppc_code (p : ppc) : Z :=
   match p with
-  | PIdle | PLoadCqT | PEnterH | PEnterT | PEnterFlags | PWbH | PWbT | PLoadCqT2 => 4
+  | PIdle | PLoadCqT | PEnterH | PEnterT | PEnterFlags | PWbH | PWbT | PLoadCqT2 | PEndWbH | PEndWbT => 4
   | PSetPolling | PClearPolling => 8
-  | PWbTry => 3
+  | PWbTry | PEndWbTry => 3
   | PStoreHead => 6
   | PInKernel => 998
   end.
@@ -156,9 +157,16 @@ Definition pstep (s : st) : st :=
          pp := PStoreHead; polls := polls s; aw := aw s; lh := lh s; seen := cq s;
          wakers := wakers s; wlh := wlh s; owed := owed s; lost := lost s |}
   | PStoreHead =>
-      (* head := tail snapshot; poll returns *)
+      (* head := tail snapshot *)
       {| md := md s; pstate := pstate s; sqh := sqh s; sqt := sqt s; cq := cq s - seen s;
-         holder := holder s; pp := PIdle; polls := pred (polls s); aw := false; lh := lh s; seen := 0;
+         holder := holder s; pp := PEndWbH; polls := polls s; aw := aw s; lh := lh s; seen := 0;
+         wakers := wakers s; wlh := wlh s; owed := owed s; lost := lost s |}
+  | PEndWbH => set_p s PEndWbT
+  | PEndWbT => set_p s PEndWbTry
+  | PEndWbTry =>
+      (* the poll returns *)
+      {| md := md s; pstate := pstate s; sqh := sqh s; sqt := sqt s; cq := cq s;
+         holder := holder s; pp := PIdle; polls := pred (polls s); aw := false; lh := lh s; seen := seen s;
          wakers := wakers s; wlh := wlh s; owed := false; lost := lost s |}
   end.
 
